@@ -156,6 +156,11 @@ def C04(tier, seed):
 
 def C15(tier, seed):
     drivers = matrix_jobs("subst_", tier, seed, "0", "1", 10, 1000, shards_q=3, shards_t=4)
+    # two-hop routes in every direction combination, incl. attempts over the same pool / pools that do not share the
+    # intermediate mint: a successful two-hop must satisfy TwoHopGuard
+    shards, worlds, attempts = (2, 3, 150) if tier == "quick" else (8, 12, 400)
+    for s_ in range(shards):
+        drivers.append({"name": f"twohop_{s_}", "args": ["twohop", "--seed", str(seed * 100 + 90 + s_), "--worlds", str(worlds), "--attempts", str(attempts)]})
     return {"active": ["C15"], "drivers": drivers, "models": [], "exhaustive": tier != "quick",
             "must_exercise": {"swap": 1, "swap_v2": 1, "two_hop_swap": 1, "two_hop_swap_v2": 1, "collect_reward_v2": 1, "reposition_liquidity_v2": 1, "collect_protocol_fees_v2": 1},
             "explanation": "substitution matrix: for every account slot of every fund-moving / privileged instruction of the prepared world, the account is replaced (one slot at a time, on a copy "
